@@ -141,9 +141,9 @@ var checks = map[string]*check{
 			return append(gen.Kernel(g, thor), append(gen.Round(g, n(thor, 300, 4000)), gen.Nat(g, n(thor, 8, 40), 20)...)...)
 		},
 		builds:      []string{"", "decimal_pure_go", "math_big_pure_go"},
-		rule:        "structured enumeration of kernel inputs: vector lengths {0..9,15..17,31..33,63..65,70} (0..70 in thorough) x carry patterns (none, all, alternating, into the last word, random) x destination disjoint / = x / = y for add10VV, sub10VV; carry-run lengths x y in {0,1,base-1,random} for add10VW, sub10VW; shifts 0..18 x words {base-1, 10^k, k*10^s-1, small low digits} for shl10VU, shr10VU; multipliers/divisors {0,1,2,base/2,base-1,10^k,random} for mulAdd10VWW, addMul10VVW, div10VWW; edge and random scalars for mul10WW, mulAdd10WWW, div10W, div10WW; the 18 rows of the division-by-10^k table dumped from the library are checked by TLC against the Granlund-Montgomery sufficient condition (exact arithmetic: a statement about all 2^64 inputs of the shift kernels' divisions); every call runs the build's implementation and the portable Go one, both must satisfy the mathematical post-condition (KernelPost / ScalarPost) and agree; the whole-library programs run under the default, decimal_pure_go and math_big_pure_go builds and the three event logs must be identical",
+		rule:        "structured enumeration of kernel inputs: vector lengths {0..9,15..17,31..33,63..65,70} (0..70 in thorough) x carry patterns (none, all, alternating, into the last word, random) x destination disjoint / = x / = y for add10VV, sub10VV; for shl10VU / shr10VU also destinations overlapping the source 1..n words above / below it (how dec.shl / dec.shr move a value inside one buffer); carry-run lengths x y in {0,1,base-1,random} for add10VW, sub10VW; shifts 0..18 x words {base-1, 10^k, k*10^s-1, small low digits} for shl10VU, shr10VU; multipliers/divisors {0,1,2,base/2,base-1,10^k,random} for mulAdd10VWW, addMul10VVW, div10VWW; edge and random scalars for mul10WW, mulAdd10WWW, div10W, div10WW; the 18 rows of the division-by-10^k table dumped from the library are checked by TLC against the Granlund-Montgomery sufficient condition (exact arithmetic: a statement about all 2^64 inputs of the shift kernels' divisions); every call runs the build's implementation and the portable Go one, both must satisfy the mathematical post-condition (KernelPost / ScalarPost) and agree; the whole-library programs run under the default, decimal_pure_go and math_big_pure_go builds and the three event logs must be identical",
 		assumptions: append(append([]string{}, commonAssumptions...), "TLC does not read assembly: equivalence is established on the enumerated inputs"),
-		req:         []string{"K:add10VV", "K:sub10VV", "K:add10VW", "K:sub10VW", "K:shl10VU", "K:shr10VU", "K:mulAdd10VWW", "K:addMul10VVW", "K:div10VWW", "K:mul10WW", "K:div10W", "K:div10WW", "K:add10VV:inplace", "K:shr10VU:inplace", "K.tables"},
+		req:         []string{"K:add10VV", "K:sub10VV", "K:add10VW", "K:sub10VW", "K:shl10VU", "K:shr10VU", "K:mulAdd10VWW", "K:addMul10VVW", "K:div10VWW", "K:mul10WW", "K:div10W", "K:div10WW", "K:add10VV:inplace", "K:shr10VU:inplace", "K:shl10VU:overlap", "K:shr10VU:overlap", "K.tables"},
 	},
 	"C08": {
 		id: "C08", models: []model{mcCore}, trace: "Trace_Core", batch: 4, sim: coreSim,
